@@ -5,6 +5,7 @@
 import Driver.Spec
 import RapidModel.Minimize
 import RapidModel.Persist
+import RapidModel.Passes
 
 namespace Rapid.Driver
 open Rapid
@@ -67,9 +68,19 @@ def groupsOfToks (toks : List Tok) : List Grp := Id.run do
       | [] => pure ()
   return groups.toList
 
+/-- canonical group label, as the harness prints it: fixed labels are kept, generator strings
+    are not compared -/
+def canonLabel (l : String) : String :=
+  if ["coinflip", "bias", "intbits", "dieroll", "try", "action", "permute@repeat", "Repeat@repeat",
+      "floatexp", "floatsignif"].contains l then l
+  else if l.endsWith "@repeat" then "*@repeat"
+  else "*"
+
 def showGroups (toks : List Tok) : String :=
-  ";".intercalate ((groupsOfToks toks).map fun g =>
-    s!"{g.b},{g.e},{g.label},{b2s g.standalone},{b2s g.discard}")
+  let gs := groupsOfToks toks
+  let labels := gs.map (·.label)
+  ";".intercalate (gs.map fun g =>
+    s!"{g.b},{g.e},{canonLabel g.label}#{labels.idxOf g.label},{b2s g.standalone},{b2s g.discard}")
 
 def showRec (used : List UInt64) (toks : List Tok) : String :=
   s!"data={joinWords used} groups={showGroups toks}"
@@ -233,14 +244,15 @@ def handle (line : String) : String :=
     toString (compareData a b)
   | "prim" :: args => runPrim args (parseWords (fs.getD 1 ""))
   | ["repeat", lo, hi, script] => runRepeat lo.toInt! hi.toInt! script (parseWords (fs.getD 1 ""))
-  | "gen" :: _ =>
-    let src := sdrop (fs.getD 0 "") 4
+  | "gen" :: _ | "genstr" :: _ =>
+    let strAll := cmd.head? == some "genstr"
+    let src := sdrop (fs.getD 0 "") (if strAll then 7 else 4)
     let ws := parseWords (fs.getD 1 "")
     match parseSX (tokenize src) with
     | none => "parse-error"
     | some (sx, _) =>
-      let env : Env := { theEnv with fuel := fuelFor ws }
-      let o := ((compileGen sx).value env).run (.buf ws) TS.fresh
+      let env : Env := { theEnv with fuel := fuelFor ws, strAll := strAll }
+      let o := ((compileGen strAll sx).value env).run (.buf ws) TS.fresh
       let res := match o.res with
         | .ok v => "ok:" ++ showVal sx v
         | .error e => "err:" ++ showErrPlain e
@@ -305,6 +317,29 @@ def handle (line : String) : String :=
           let (buf, e3) := match mm with | some (d, e) => (d, e) | none => (s.data, s.err)
           let d : DC := ⟨fb.valid, fb.invalid, false, fb.seed, none, buf, r.err, e3, fb.seeds⟩
           s!"verdict={showVerdict (verdict checks d)} exited=FailNow rng={fb.seeds.length + 1} decisions={dec} final={joinWords buf}"
+    | _ => "parse-error"
+  | "checktbfull" :: _ =>
+    let p := parseProg (sdrop (fs.getD 0 "") 12)
+    match spaceSplit (fs.getD 1 "") with
+    | [checks, seed] =>
+      let checks := checks.toNat!
+      let fb := findBug p checks (UInt64.ofNat seed.toNat!) (fun _ => false)
+      match fb.err with
+      | none =>
+        let d : DC := ⟨fb.valid, fb.invalid, fb.early, 0, none, [], none, none, fb.seeds⟩
+        s!"verdict={showVerdict (verdict checks d)} rng={fb.seeds.length} runs= final=-"
+      | some _ =>
+        let r := checkOnce p (.rng (Jsf.init fb.seed)) TS.fresh
+        if !sameError fb.err r.err then
+          let d : DC := ⟨fb.valid, fb.invalid, false, fb.seed, none, r.used, fb.err, r.err, fb.seeds⟩
+          s!"verdict={showVerdict (verdict checks d)} rng={fb.seeds.length + 1} runs= final={joinWords r.used}"
+        else
+          let so := shrinkFull p (recOfToks r.toks) r.err 100000
+          match so.crashed with
+          | some what => s!"crashed={under what} runs={" ".intercalate (so.log.map fun b => joinWords b ++ ";")}"
+          | none =>
+            let d : DC := ⟨fb.valid, fb.invalid, false, fb.seed, none, so.data, r.err, so.err, fb.seeds⟩
+            s!"verdict={showVerdict (verdict checks d)} rng={fb.seeds.length + 1} runs={" ".intercalate (so.log.map fun b => joinWords b ++ ";")} final={joinWords so.data}"
     | _ => "parse-error"
   | "fuzz" :: _ =>
     let p := parseProg (sdrop (fs.getD 0 "") 5)
